@@ -3,6 +3,7 @@
 Every (specifier, hash, key size, coded count, passphrase, salt) of the alphabet is derived by
 PGPy's String2Key.derive_key (object built through the setters and through parse of the wire form)
 and by refpgp.s2k (streaming contexts as the RFC words it)."""
+import itertools
 import random
 
 from mc.core import Res
@@ -79,6 +80,10 @@ class Prop(object):
         for h in (['SHA1', 'SHA256'] if tier == 'quick' else [x for x, _ in HASHES]):
             for spec in (0, 1, 3):
                 u.append(('sequence', {'hash': h, 'spec': spec}))
+        # (e) the fields of a specifier assigned in every order (and a live object switched to another kind): the derived key is a function of the
+        # field values, not of the order in which a caller filled them in
+        for h in (['SHA1', 'SHA256'] if tier == 'quick' else [x for x, _ in HASHES]):
+            u.append(('orders', {'hash': h}))
         return u
 
     def run_case(self, check, case):
@@ -264,6 +269,55 @@ class Prop(object):
                            'derivation %r then %r (%s): %s' % (a, b, {'reuse': 'one specifier object re-configured', 'fresh': 'two fresh specifier objects', 'copy': 'second derivation on a copy of the re-configured object'}[mode], info))
         r.dim('hash', case.get('hash', pairs[0][0][1]))
         r.samples.append({'pair': [pairs[-1][0], pairs[-1][1]], 'modes': modes})
+        return r
+
+    def c_orders(self, case):
+        from pgpy.packet.fields import String2Key
+        from pgpy.constants import HashAlgorithm, SymmetricKeyAlgorithm
+        r = Res()
+        hname = case['hash']
+        hid = dict(HASHES)[hname]
+        salt = bytes(range(0x21, 0x29))
+        fields = ['encalg', 'specifier', 'halg', 'salt', 'count']
+        cfgs = [(sp, cname, coded) for sp in (0, 1, 3) for cname in ('AES128', 'AES256') for coded in ((0, 96, 255) if sp == 3 else (96,))]
+        for sp, cname, coded in cfgs:
+            cid, klen = [(b, c) for a, b, c in CIPHERS if a == cname][0]
+            want = rs2k.derive(sp, hid, klen, b'order', salt, coded)
+            want_octets = bytes([255, cid, sp, hid]) + (salt if sp >= 1 else b'') + (bytes([coded]) if sp == 3 else b'')
+            vals = {'encalg': SymmetricKeyAlgorithm(cid), 'specifier': sp, 'halg': HashAlgorithm(hid), 'salt': salt, 'count': coded}
+            histories = [('assign %s' % '>'.join(o), [(f, vals[f]) for f in o]) for o in itertools.permutations(fields)]
+            # a live object of another kind (other count, other salt) switched over field by field, the specifier kind last or first
+            for other in (0, 1, 3):
+                pre = [('encalg', SymmetricKeyAlgorithm(cid)), ('halg', HashAlgorithm(hid)), ('specifier', other), ('salt', b'\xee' * 8), ('count', 17)]
+                histories.append(('kind %d, then count>salt>specifier' % other, pre + [('count', coded), ('salt', salt), ('specifier', sp)]))
+                histories.append(('kind %d, then specifier>salt>count' % other, pre + [('specifier', sp), ('salt', salt), ('count', coded)]))
+                # (fields a kind does not use keep what was assigned to them)
+                histories.append(('all fields, kind %d, then only the specifier' % other, [('encalg', SymmetricKeyAlgorithm(cid)), ('halg', HashAlgorithm(hid)), ('specifier', other), ('salt', salt), ('count', coded), ('specifier', sp)]))
+            for hi, (hlabel, hist) in enumerate(histories):
+                if case.get('only') is not None and case['only'] != [sp, cname, coded, hi]:
+                    continue
+                r.states += 1
+                r.transitions += 1
+                try:
+                    s2 = String2Key()
+                    s2.usage = 255
+                    for f, v in hist:
+                        setattr(s2, f, bytearray(v) if f == 'salt' else v)
+                    got = bytes(s2.derive_key('order'))
+                    octets = bytes(s2.__bytearray__())
+                    bad = None
+                    if got != want:
+                        bad, info = 'derived-key', 'derived %s, RFC 4880 3.7.1 gives %s' % (got.hex(), want.hex())
+                    elif octets != want_octets:
+                        bad, info = 'octets', 'specifier serialises as %s, expected %s' % (octets.hex(), want_octets.hex())
+                except Exception as e:
+                    bad, info = 'exception', repr(e)
+                r.outcomes['orders:' + (bad or 'ok')] += 1
+                if bad:
+                    r.viol('orders', {'kind': 'order-' + bad, 'spec': sp}, dict(case, only=[sp, cname, coded, hi]),
+                           'S2K kind %d hash %s cipher %s coded count %d, fields: %s: %s' % (sp, hname, cname, coded, hlabel, info))
+        r.dim('hash', hname)
+        r.samples.append({'assignment_orders': 120, 'switch_histories': 9, 'configurations': len(cfgs)})
         return r
 
     def _replay_one(self, case):
